@@ -42,7 +42,15 @@ func c14Build() (string, error) {
 	}
 	out := filepath.Join(c14VerifDir(), "build", "bpf", "C14")
 	if real, _ := filepath.EvalSymlinks(repo); real != "/repo" {
-		out = filepath.Join(c14VerifDir(), "build", "alt_bpf", strings.ReplaceAll(strings.Trim(real, "/"), "/", "_"), "C14")
+		// scratch tree (mutant / seeded runs): a private directory that no other run's clean-up touches
+		if err := os.MkdirAll(filepath.Join(c14VerifDir(), "build", "bpf-scratch"), 0o755); err != nil {
+			return "", err
+		}
+		tmp, err := os.MkdirTemp(filepath.Join(c14VerifDir(), "build", "bpf-scratch"), "C14-")
+		if err != nil {
+			return "", err
+		}
+		out = tmp
 	}
 	cmd := exec.Command(filepath.Join(c14VerifDir(), "tools", "build_bpf.sh"), out)
 	cmd.Env = append(os.Environ(), "VERIF_REPO="+repo)
